@@ -118,6 +118,14 @@ func (f *FragmentBuffer) pushHandshakeFragments(
 			continue
 		}
 
+		if frag.handshakeHeader.FragmentLength == 0 && frag.handshakeHeader.Length != 0 {
+			// An empty fragment of a non-empty message carries nothing; storing it would
+			// shadow the real fragment that starts at the same offset.
+			buf = buf[end:]
+
+			continue
+		}
+
 		messageFragments, ok := f.cache[frag.handshakeHeader.MessageSequence]
 		if !ok {
 			messageFragments = &fragments{
